@@ -621,10 +621,9 @@ pub fn run(ctx: &Ctx) -> Report {
             sub.cap(format!("{} inputs hit the history depth/state cap (40 calls / 4000 states)", capped));
         }
         let mut accs = accs;
-        let mut extra = Acc::new();
-        check_repeated_overdeep(&mut extra, Style::NextValue);
-        check_repeated_overdeep(&mut extra, Style::NextDatum);
-        accs.push(extra);
+        // (on worker threads: large stacks, and the abort handler can name the case)
+        let extra = par_ranks(2, |rank, acc| check_repeated_overdeep(acc, if rank == 0 { Style::NextValue } else { Style::NextDatum }));
+        accs.extend(extra);
         rep.absorb(sub, accs);
     }
     if ctx.want("totality-faults") {
